@@ -481,6 +481,14 @@ func deliveryCases(c *Ctx, f *format) {
 		try(&chunkReader{data: in.data, sizes: []int{3, 0, 7}}, "3, empty, 7 …")
 		try(&chunkReader{data: in.data, sizes: []int{4096}}, "4096-byte chunks")
 		try(&chunkReader{data: in.data, withEOF: true}, "everything together with EOF")
+		if len(in.data) < 50000 && !bytes.Contains(in.data, []byte("\r")) {
+			cr := crlf(in.data)
+			if f.name == "newick" {
+				cr = crlfOutsideQuotes(in.data)
+			}
+			try(bytes.NewReader(cr), "with CRLF line terminators")
+			try(&chunkReader{data: cr, sizes: []int{1}}, "with CRLF line terminators, one byte at a time")
+		}
 		for _, gz := range []bool{false, true} {
 			nm := fmt.Sprintf("c06s-%s-%d.dat", f.name, i)
 			if gz {
